@@ -427,6 +427,8 @@ def _spec_math(name, a):
             if x < 0 and not float(y).is_integer():
                 return NUM
             return float(x) ** y
+        if name == 'ATAN2':
+            return DIV if x == 0 and a[1] == 0 else math.atan2(a[1], x)
         if name == 'MOD':
             y = a[1]
             return DIV if y == 0 else x - y * math.floor(x / y)
@@ -497,7 +499,7 @@ def _spec_math(name, a):
 
 MATH1 = ['ABS', 'INT', 'SIGN', 'SQRT', 'EXP', 'LN', 'LOG10', 'LOG', 'EVEN', 'ODD', 'SIN', 'COS', 'TAN', 'ATAN', 'SINH', 'COSH', 'TANH',
          'ASIN', 'ACOS', 'TRUNC', 'COT', 'SEC', 'CSC', 'COTH', 'SECH', 'CSCH', 'ACOT', 'ACOTH', 'ACOSH', 'ATANH', 'DEGREES', 'RADIANS', 'ASINH']
-MATH2 = ['POWER', 'MOD', 'ROUND', 'ROUNDUP', 'ROUNDDOWN', 'TRUNC', 'CEILING', 'FLOOR', 'LOG']
+MATH2 = ['POWER', 'MOD', 'ROUND', 'ROUNDUP', 'ROUNDDOWN', 'TRUNC', 'CEILING', 'FLOOR', 'LOG', 'ATAN2']
 NUMS = [0, 1, -1, 2, -2, 0.5, -0.5, 1.5, -1.5, 2.5, 3.2, -3.2, 1.15, 2.675, -2.675, 7, 10, 99.9, 1e-9, 1234.5678, -1234.5678, 0.1, 100]
 DIGITS = [0, 1, 2, 3, -1, -2]
 
